@@ -146,6 +146,9 @@ def _prior_sample_shape(shape, res, sink):
     pm = types.ModuleType("pymc")
 
     def draw(vars, draws=1, random_seed=None, **kw):
+        if rec.get("fail_next"):
+            rec["fail_next"] = False
+            raise ValueError("draws must be an integer (injected failure of the draw)")
         rec["draw_seed"] = random_seed
         rec["draws"] = draws
         rec.setdefault("orders", []).append([v.name for v in vars])
@@ -161,7 +164,7 @@ def _prior_sample_shape(shape, res, sink):
     pt = types.ModuleType("pytensor.tensor")
     pt.TensorVariable = type("TensorVariable", (), {})
     w = env.World()
-    st = stack.Stack(world=w, load=("prior_helpers", "likelihood_helpers", "samples"),
+    st = stack.Stack(world=w, load=("prior_helpers", "likelihood_helpers", "utils", "samples"),
                      extra_shims={"pymc": pm, "pytensor.tensor": pt, "thejoker.units": types.SimpleNamespace(UNIT_ATTR_NAME="__tensor_unit__")})
     st.shims["pytensor"] = types.SimpleNamespace(__version__="3.3.2", tensor=pt)
     # sets iterate in an order that depends on the interpreter's hash seed: every order is explored (symx.loader.AdvSet)
@@ -191,6 +194,15 @@ def _prior_sample_shape(shape, res, sink):
         seed2 = rec.get("draw_seed")
         s3 = p.sample(size=2, generate_linear=True, rng=rng)
         seed3 = rec.get("draw_seed")
+        # a call that fails inside the draw must leave numpy's global random machinery as it found it
+        g0 = st.np.random.get_bit_generator()
+        rec["fail_next"] = True
+        try:
+            p.sample(size=2, rng=rng)
+        except ValueError:
+            pass
+        rec["fail_next"] = False
+        rec["global_restored"] = st.np.random.get_bit_generator() is g0 or st.np.random.get_bit_generator() == g0
         return rng, seed1, seed2 if seed3 is seed2 else None, [list(o) for o in rec["orders"]], [list(x.tbl.colnames) for x in (s1, s2, s3)]
 
     ex = core.Explorer(max_paths=200)
@@ -205,6 +217,8 @@ def _prior_sample_shape(shape, res, sink):
         rng, s1, s2, orders, cols = path.result
         sink.check(path, "prior_sample_forwards_rng", core.SB(z3.BoolVal(s1 is rng and s2 is rng and not w.global_random_touched)),
                    site="JokerPrior.sample", describe=lambda m: {"seed_passed": repr(s1)[:80]})
+        sink.check(path, "global_bit_generator_restored_after_failure", core.SB(z3.BoolVal(bool(rec.get("global_restored")))), site="JokerPrior.sample.failure",
+                   describe=lambda m: {"events": [list(map(str, e)) for e in w.log if e[0] == "set_bit_generator"][:4]})
         # the order in which the variables are handed to pm.draw fixes which sub-stream each one gets: it must not depend on
         # anything but the prior (in particular not on the iteration order of a set, which changes with PYTHONHASHSEED)
         first = seen.setdefault("orders", (orders, cols))
@@ -269,6 +283,17 @@ def replay(cand):
             b = prior.sample(size=8, rng=np.random.default_rng(7))
             if not all(np.array_equal(a[k].value, b[k].value) for k in a.par_names):
                 bad.append("prior.sample(rng=seed 7) is not reproducible")
+            # a failing call must not leave numpy's global generator swapped
+            g0 = np.random.get_bit_generator()
+            st0 = np.random.get_state()[1].copy()
+            gen = np.random.default_rng(7)
+            try:
+                prior.sample(size=16.0, rng=gen)
+            except Exception:
+                pass
+            if np.random.get_bit_generator() is not g0 or not np.array_equal(st0, np.random.get_state()[1]):
+                bad.append("after a failing prior.sample call numpy's global bit generator / state is not what it was")
+                np.random.set_bit_generator(g0)
             # equal seed in separate interpreter processes (different str hash seeds)
             import subprocess
             import sys
